@@ -191,6 +191,8 @@ func checkC02(c *Ctx) {
 	checkC02NotUnwrap(c)
 	checkC02AndWrap(c)
 	checkC02NilAgree(c)
+	checkC02InlineAnd(c)
+	checkMergeUnconditional(c, c.Rule("C02.merge-unconditional", "merging a list-carrying clause keeps the earlier units whatever the new clause carries", 4))
 	checkRegroupScans(c, c.Rule("C02.regroup-scan", "lone-OR regrouping before a library condition scans all members of the WHERE clause", 2))
 	checkPresizedAppend(c, c.Rule("C02.presized-append", "slices created with make([]T, n) are filled by index, never appended to (IN lists without leading NULLs)", 2))
 	checkEmptyForms(c, c.Rule("C02.empty", "empty condition forms add no clause (same rule as C09.empty)", 14))
